@@ -1295,7 +1295,7 @@ async def _(mpc):
     return int(G.decode(*G.encode(5)))
 
 
-@open_case('C01', 'C01-zero-base-power', '0 ** secint.array([0, 1, 2, 5])', numpy=True, expected=[1, 0, 0, 0])
+@case('C01', '0 ** secint.array([0, 1, 2, 5]), 3 parties', '9a72fd1', cfg=(3, 1, False), numpy=True, expected=[1, 0, 0, 0])
 async def _(mpc):
     secint = mpc.SecInt(16)
     return _ints(await mpc.output(0 ** secint.array(np.array([0, 1, 2, 5]))))
